@@ -315,7 +315,7 @@ class SymEval(Flow):
                 return Seq(Aff.atom(fresh('len')), getattr(base, 'kind', None))
             self.slices.append((e, base, lo, hi, st))
             n = self.slice_len(L, lo, hi, st)
-            return Seq(n, getattr(base, 'kind', None), ('slice', lo.key(), hi.key()))
+            return Seq(n, getattr(base, 'kind', None), ('slice', lo, hi, unparse(e.value)))
         idx = self.ev(e.slice, st)
         if isinstance(base, Tup) and isinstance(idx, Int) and idx.a.is_const():
             i = idx.a.c
@@ -324,9 +324,12 @@ class SymEval(Flow):
         L = self.length(base, st)
         ia = self.as_int(idx, st)
         if L is not None and ia is not None and isinstance(e.ctx, ast.Load):
-            self.indexes[id(e)] = (e, L, ia, st)
+            self.indexes[id(e)] = (e, L, ia, st.copy())
+            # post-condition of a successful index operation with a constant index
+            if ia.is_const():
+                st.facts = st.facts.add(L - ia.c - 1 if ia.c >= 0 else L + ia.c)
         if isinstance(base, Seq) and base.kind == 'str':
-            return Seq(1, 'str')
+            return Seq(1, 'str', ('index', ia, unparse(e.value)) if ia is not None else None)
         return Obj(k)
 
     def _bound(self, b, L, st, default):
@@ -424,6 +427,20 @@ class SymEval(Flow):
                 a, b = self.as_int(args[0], st), self.as_int(args[1], st)
                 if a is not None and b is not None:
                     return self._range(a, b, st)
+        if name == 'next' and len(e.args) == 2 and isinstance(e.args[0], ast.GeneratorExp) \
+                and len(e.args[0].generators) == 1:
+            g = e.args[0].generators[0]
+            d = self.as_int(args[1], st)
+            if isinstance(g.iter, ast.Call) and getattr(g.iter.func, 'id', '') == 'range' \
+                    and isinstance(e.args[0].elt, ast.Name) and isinstance(g.target, ast.Name) \
+                    and e.args[0].elt.id == g.target.id and d is not None:
+                ra = [self.as_int(self.ev(x, st), st) for x in g.iter.args]
+                if len(ra) == 1:
+                    ra = [Aff.const(0), ra[0]]
+                if len(ra) == 2 and all(x is not None for x in ra):
+                    r = Aff.atom(fresh('next'))
+                    st.facts = st.facts.add_disj([[r - ra[0], ra[1] - 1 - r], [r - d, d - r]])
+                    return Int(r)
         if name == 'str' and len(args) == 1:
             return Seq(Aff.atom(('len', fresh('str'))), 'str')
         if name == 'int' and len(args) == 1:
@@ -472,8 +489,19 @@ class SymEval(Flow):
             st.facts = st.facts.add(a + 1)
             n = self.length(recv, st)
             if n is not None:
-                st.facts = st.facts.add(n - a)
+                st.facts = st.facts.add(n - a - 1)
+            if name == 'find' and len(args) >= 2:
+                lo = self.as_int(args[1], st)
+                if lo is not None:
+                    st.facts = st.facts.add_disj([[a - lo], [a + 1, -a - 1]])
             return Int(a)
+        if name == 'partition' and len(args) == 1:
+            n = self.length(recv, st)
+            if n is not None:
+                h, sp = Aff.atom(('len', fresh('head'))), Aff.atom(('len', fresh('sep')))
+                t = n - h - sp
+                st.facts = st.facts.add(t)
+                return Tup([Seq(h, 'str'), Seq(sp, 'str'), Seq(t, 'str')])
         if name == 'copy':
             n = self.length(recv, st)
             if n is not None and not isinstance(recv, Obj):
@@ -659,6 +687,12 @@ class SymEval(Flow):
         for v in intvars:
             if entry.facts.prove_ge0(entry.vars[v].a):
                 cands.append(('ge0', v))
+        for k in entry.vars:
+            if k in assigned or k in akeys:
+                cands.append(('same', k))
+        if not hasattr(self, '_entry_stack'):
+            self._entry_stack = []
+        self._entry_stack.append(entry)
         extra = self.extra_candidates(s, entry, assigned | akeys)
         cands += extra
         it = 0
@@ -684,6 +718,7 @@ class SymEval(Flow):
             if len(keep) == len(cands):
                 break
             cands = keep
+        self._entry_stack.pop()
         self.invariants[id(s)] = [self.cand_text(c) for c in cands]
         for b in backs:
             for hook in self.backedge_hooks:
@@ -733,6 +768,8 @@ class SymEval(Flow):
             return 'len(%s) == len(%s)' % (c[1], c[2])
         if c[0] == 'ge0':
             return '%s >= 0' % c[1]
+        if c[0] == 'same':
+            return '%s unchanged at the back edge' % c[1]
         return repr(c)
 
     def havoc(self, entry, assigned, akeys, cands, loop):
@@ -742,7 +779,10 @@ class SymEval(Flow):
             if c[0] == 'eqlen':
                 ga = groups.get(c[1]) or groups.get(c[2]) or ('len', fresh('inv'))
                 groups[c[1]] = groups[c[2]] = ga
+        same = {c[1] for c in cands if c[0] == 'same'}
         for k in list(st.vars):
+            if k in same:
+                continue
             if k in assigned or k in akeys or any(_mentions(k, a) for a in assigned if k != a):
                 old = st.vars[k]
                 if k in groups:
@@ -757,6 +797,8 @@ class SymEval(Flow):
                 else:
                     st.vars[k] = Obj(fresh('hv'))
         for a in assigned:
+            if a in same:
+                continue
             st.ver[a] = st.ver.get(a, 0) + 1000 + next(_counter)
         # path facts that mention havocked atoms are still sound (atoms are values, not names)
         return st
@@ -771,7 +813,21 @@ class SymEval(Flow):
         if c[0] == 'ge0':
             v = st.vars.get(c[1])
             return isinstance(v, Int) and st.facts.prove_ge0(v.a)
+        if c[0] == 'same':
+            v, w = st.vars.get(c[1]), self._entry_of(c[1])
+            if v is None or w is None:
+                return False
+            if v == w:
+                return True
+            if isinstance(v, Int) and isinstance(w, Int):
+                return st.facts.prove_eq(v.a, w.a)
+            if isinstance(v, Seq) and isinstance(w, Seq):
+                return st.facts.prove_eq(v.n, w.n) and v.desc == w.desc
+            return False
         return False
+
+    def _entry_of(self, k):
+        return self._entry_stack[-1].vars.get(k) if self._entry_stack else None
 
 
 def _is_pseudo(k):
